@@ -14,7 +14,7 @@ from .common import *
 from .c09 import GRID, PRIMS, bn_types, type_bits
 
 # must match `for_wtype!` in harness/src/bin/c13.rs
-WIDE = ["8x1024", "16x512", "32x256", "64x128", "64x127", "16x33", "64x16", "8x1", "64x1"]
+WIDE = ["8x1024", "16x512", "32x256", "64x128", "64x127", "16x33", "64x16", "8x1", "64x1", "64x1025", "8x8200"]
 WIDE_NARROW = {"8x1", "64x1"}            # already in the grid: only paired with genuinely wide types here
 # digit-array access on wide instantiations (present in `for_config!`)
 WIDE_DIGIT_CFGS = ["64x128", "8x1024", "16x512", "32x256", "64x64", "8x64", "64x16"]
@@ -71,6 +71,10 @@ def bitlen_probe(rng, sname, dname):
     sb, ssigned, sw, db, dsigned, dw, dmin, dmax, smin, smax = limits(sname, dname)
     cap = db - 1 if dsigned else db
     L = rng.choice([cap - 1, cap, cap, cap + 1, cap + 1, cap + 2, sb - 1, sb])
+    if sb > 65536 and rng.random() < 0.6:
+        # sources beyond 65535 bits: bit lengths where a 16-bit count of significant bits wraps to 0, 1, ..., cap
+        # (added after seeded change C13-r7m2)
+        L = 65536 + rng.choice([0, 1, 1, 2, cap - 1, cap, cap + 1, rng.randrange(0, sb - 65536 + 1)])
     L = max(1, min(L, sb))
     low = rng.choice([0, (1 << (L - 1)) - 1, rng.randrange(1 << (L - 1)), rng.randrange(1 << (L - 1)), 1 % (1 << (L - 1)) if L > 1 else 0])
     z = (1 << (L - 1)) + low
